@@ -314,6 +314,65 @@ def oracle_spec_vs_truth(rec, kinds):
     return bad, cnt
 
 
+def disk_attrs(pid, fam, work):
+    """C05/C06 through the real read path: family files are written to disk as regular files, as relative symbolic links
+    to files elsewhere in the project, as absolute links to files outside it and as hard links; the project is scanned
+    with graph.Initialize and the attribute oracles run on what THAT scan reports for each path. -> (stats, failures)"""
+    import shutil
+    stats, bad = Counter(), []
+    root, outside = work + '/diskattrs', work + '/diskattrs_outside'
+    shutil.rmtree(root, ignore_errors=True)
+    shutil.rmtree(outside, ignore_errors=True)
+    os.makedirs(outside, exist_ok=True)
+    expect = {}
+    for i, c_ in enumerate(fam):
+        mode = ['regular file', 'relative symbolic link', 'absolute symbolic link to a file outside the project', 'hard link'][i % 4]
+        d = '%s/u%d' % (root, i)
+        os.makedirs(d, exist_ok=True)
+        p = '%s/%s.java' % (d, c_['id'])
+        if i % 4 == 0:
+            open(p, 'wb').write(c_['data'])
+        elif i % 4 == 1:
+            os.makedirs(root + '/real', exist_ok=True)
+            open('%s/real/%s.java' % (root, c_['id']), 'wb').write(c_['data'])
+            os.symlink('../real/%s.java' % c_['id'], p)
+            expect['%s/real/%s.java' % (root, c_['id'])] = (c_, 'regular file (target of a link)')
+        elif i % 4 == 2:
+            open('%s/%s.java' % (outside, c_['id']), 'wb').write(c_['data'])
+            os.symlink('%s/%s.java' % (outside, c_['id']), p)
+        else:
+            open('%s/%s.src' % (outside, c_['id']), 'wb').write(c_['data'])
+            try:
+                os.link('%s/%s.src' % (outside, c_['id']), p)
+            except OSError:
+                open(p, 'wb').write(c_['data'])
+        expect[p] = (c_, mode)
+    out = work + '/diskattrs_dump.txt'
+    rc, so, se = run([B + '/harness', 'init-dump', root, out], timeout=900, env=dict(ENV, HOME=work))
+    if rc != 0:
+        return stats, [dict(what='graph.Initialize failed on the family written to disk: ' + se.decode(errors='replace')[-200:], case=None, detail=[])]
+    by = {}
+    for line in open(out):
+        if line.startswith('NODE '):
+            n = scan.parse_kv(line.rstrip('\n'))
+            by.setdefault(scan.unhx(n['file']).decode('utf-8', 'surrogateescape'), []).append(n)
+    for p, (c_, mode) in expect.items():
+        rec = dict(case=c_, impl_nodes=by.get(p, []))
+        stats['disk_attr_files'] += 1
+        stats['disk_attr_entities'] += len(rec['impl_nodes'])
+        if pid == 'C05':
+            b_, _, _ = oracle_decl_attrs(rec)
+            # a declaration of the source that is not reported at all cannot mirror it either
+            idx = index_nodes(rec)
+            b_ = b_ + [('%s-missing' % t['kind'], t['line'], t.get('name')) for t in c_.get('truth', []) if t['kind'] in ('class', 'method')
+                       and not find(idx, 'class_declaration' if t['kind'] == 'class' else 'method_declaration', t)][:2]
+        else:
+            b_, known, _ = oracle_expr_attrs(rec)
+        if b_:
+            bad.append(dict(what='attributes reported for a file read from disk (%s) differ from its source' % mode, case=c_, detail=b_[:3]))
+    return stats, bad
+
+
 def replay_payload(pid, case, what, detail):
     return dict(property=pid, what=what, detail=detail, path=case['path'], origin=case['origin'],
                 data_b64=base64.b64encode(case['data']).decode(),
@@ -431,6 +490,13 @@ def check(pid, tier, seed, t0, st, replay):
                     fam_ = [c_ for c_ in cases if c_['origin'] == 'family']
                     ostats, obad = objview.check(pid, fam_[:25 if tier == 'quick' else 200] + fam_[-12:], work, B + '/harness')
                     stats.update(ostats)
+                    dstats_, dbad_ = disk_attrs(pid, fam_[:24 if tier == 'quick' else 200], work)
+                    stats.update(dstats_)
+                    for b_ in dbad_[:3]:
+                        if b_.get('case'):
+                            res.violations.append(replay_payload(pid, b_['case'], b_['what'], b_['detail']))
+                        else:
+                            res.tie_broken.append(b_['what'])
                     pstats, pbad = objview.check_pairs(pid, fam_[:4] + fam_[-3:], work, B + '/harness', 10 if tier == 'quick' else 120, seed)
                     stats.update(pstats)
                     obad = obad + pbad
